@@ -1,4 +1,5 @@
 import SakuraVerif.Lemmas.Core
+import SakuraVerif.Lemmas.ExecInv
 /-! # C06 — Sub, tuplets and chords obey their time-pointer laws for any contents
 
 Stated on `Spec.Core.sem` (the semantics the real compiler is compared with on every run), for
@@ -101,5 +102,24 @@ theorem C06_chord_member_keeps_pointer (s : St) (h : s.WF) (ht : Int) (evs : Lis
 -- non-vacuity: nested blocks on the initial state
 example : (semL [.sub [.div [.note 0 0 false none none none none none, .rest none 1] none], .note 2 0 false none none none none none] St.init).t.ev
     = [⟨0, 0, 60, 43, 100⟩, ⟨0, 0, 62, 86, 100⟩] := by decide
+
+/-! ## the block laws on the literal runner model (T1)
+
+For the model of `runner::exec` (`Ex2.leaf`, tied to the code by the `exec` stream): whatever the children of the block are —
+any tokens, any nesting, no `TR`/`TrackSync` inside — if the block runs to its end then `Sub{X}` leaves the time pointer
+where it was, and a tuplet `{X}L` advances it by exactly `L` and restores the default length. -/
+
+theorem C06_sub_restores_pointer_exec (F d : Nat) (data : List Lx.SV) (vi ln : Int) (vs : Option (List Nat)) (ch : List Lx.Tok)
+    (hch : ∀ a ∈ ch, Ex2.NoTrack a) (s : Ex2.Song) (hc : s.cur < s.tracks.length) (hb : s.bad = false)
+    (hok : (Ex2.leaf F (d + 1) (.mk .sub vi ln vs data (some ch)) s).bad = false) :
+    (Ex2.leaf F (d + 1) (.mk .sub vi ln vs data (some ch)) s).t.timepos = s.t.timepos :=
+  Ex2.sub_restores_pointer F d data vi ln vs ch hch s hc hb hok
+
+theorem C06_tuplet_advances_exactly_exec (F d : Nat) (lenS : List Nat) (vi ln : Int) (vs : Option (List Nat)) (ch : List Lx.Tok)
+    (hch : ∀ a ∈ ch, Ex2.NoTrack a) (s : Ex2.Song) (hc : s.cur < s.tracks.length) (hb : s.bad = false)
+    (hok : (Ex2.leaf F (d + 1) (.mk .div vi ln vs [.str lenS] (some ch)) s).bad = false) :
+    (Ex2.leaf F (d + 1) (.mk .div vi ln vs [.str lenS] (some ch)) s).t.timepos = s.t.timepos + Len.calcLength s.tb s.t.length lenS ∧
+    (Ex2.leaf F (d + 1) (.mk .div vi ln vs [.str lenS] (some ch)) s).t.length = s.t.length :=
+  Ex2.div_advances_exactly F d lenS vi ln vs ch hch s hc hb hok
 
 end Sakura.Props.C06
